@@ -122,6 +122,12 @@ def mutants(ids):
                         meta_d = json.load(f)
                         if pid not in (meta_d.get("run_with_checks") or [meta_d.get("property")]):
                             continue
+                        if meta_d.get("superseded_by_fix"):
+                            # a later "fix:" commit in the tree under test removed what this change exploited: with it the
+                            # change no longer breaks the property (its own demonstration passes), nothing is left to catch
+                            print("%s %-40s SKIPPED (no longer breaks the property since fix %s)" % (
+                                pid, os.path.basename(os.path.dirname(patch)), meta_d["superseded_by_fix"]))
+                            continue
                 except Exception:
                     continue
             total += 1
